@@ -252,14 +252,19 @@ PROPS["C05"] = {
 
 PROPS["C09"] = {
     "parts": [{"name": "decode", "pkg": "c09", "chk": "chk_c09", "args": ["decode"]},
-              {"name": "roundtrip", "pkg": "c09", "chk": "chk_c09_rt", "args": ["rt"]}],
+              {"name": "roundtrip", "pkg": "c09", "chk": "chk_c09_rt", "args": ["rt"]},
+              {"name": "wkt", "pkg": "c09", "chk": "chk_c09_wkt", "args": ["wkt"]}],
     "reasons": {"decode": {"1": "the codec and canonical proto3 JSON parsing both accept the text but store different values (coercion / truncation / wrap-around)",
                            "4": "the decoder panicked",
                            "6": "a value of the wrong JSON type for the field (e.g. an array of numbers for a bytes field) was accepted",
                            "5": "an integer / bool / enum text that canonical parsing rejects (out of range, fractional, wrong JSON type) was accepted"},
                 "roundtrip": {"2": "encoding a value and decoding it again does not give the value back (or it cannot be encoded)",
-                              "3": "the decoder does not accept what the canonical proto3 JSON encoder emits for the value (or stores another value)"}},
-    "rule": "decode: run-time built schema with every scalar kind as singular / repeated / map (6 key kinds x 5 value kinds) fields; per kind a boundary lattice of JSON texts (0, +-1, 2^31, 2^32, 2^53+1, 2^63, 2^64 boundaries, fractional and exponent forms, quoted forms, leading zeros/plus, specials, every wrong JSON type, enum names/numbers known/unknown, base64 std/url/unpadded), with and without DiscardUnknown; each text is decoded by the codec, by protojson (reference) and by the model. roundtrip: boundary and random values of every kind through Marshal->Unmarshal and protojson->Unmarshal, floats compared by bit pattern",
+                              "3": "the decoder does not accept what the canonical proto3 JSON encoder emits for the value (or stores another value)"},
+                "wkt": {"1": "for a field whose value / element / map value is a message or NullValue (Value, Struct, ListValue, Duration, Timestamp, FieldMask, wrappers, Empty, a nested message): the codec and canonical proto3 JSON parsing both accept the text but store different messages",
+                        "2": "such a value, encoded by the codec and decoded again, does not come back",
+                        "3": "the codec rejects (or stores another value for) the text the canonical proto3 JSON encoder emits for such a value, e.g. null as an element of a repeated google.protobuf.Value",
+                        "4": "the decoder or encoder panicked"}},
+    "rule": "decode: run-time built schema with every scalar kind as singular / repeated / map (6 key kinds x 5 value kinds) fields; per kind a boundary lattice of JSON texts (0, +-1, 2^31, 2^32, 2^53+1, 2^63, 2^64 boundaries, fractional and exponent forms, quoted forms, leading zeros/plus, specials, every wrong JSON type, enum names/numbers known/unknown, base64 std/url/unpadded), with and without DiscardUnknown; each text is decoded by the codec, by protojson (reference) and by the model. roundtrip: boundary and random values of every kind through Marshal->Unmarshal and protojson->Unmarshal, floats compared by bit pattern. wkt: singular / repeated / map<string,_> / map<int64,_> fields of 17 message-valued types (well-known types with a JSON form of their own, NullValue, a nested message) against a lattice of texts per type (canonical forms, accepted variants, null at every position, wrong types); every value the reference stores also goes through codec-encode -> codec-decode and canonical-encode -> codec-decode (wire bytes compared)",
     "level_text": "Coq theorems: for every integer kind and every value in range, decoding the encoder's output and decoding the canonical (quoted 64-bit) text both give the value back; an accepted integer text denotes exactly the stored value, which is in range (no coercion, truncation or wrap-around), for EVERY text; the pre-repair integer conversion is refuted with witnesses; base64 decode . encode = id on all byte strings; bool / string / enum-name round trips. Floats: specials proved; that a finite float survives text rests on strconv (exercised, bit-compared). Tied to the code by a three-way differential (codec, protojson, model).",
     "level_note": "Trusted: Coq kernel, extraction, modelrun, Go harness; encoding/json's tokenizer and string escaping, strconv.ParseFloat/FormatFloat, math/big.Rat.SetString, protojson as the reference implementation of canonical proto3 JSON.",
     "design_ref": "DESIGN.md §3 C09",
